@@ -152,7 +152,7 @@ static RunResult execute(const Property* P, RunCtx& ctx, bool keep_text) {
 // ---------------------------------------------------------------- child execution (gate / shrink / replay)
 struct ChildSpec {
     const Property* P; uint64_t seed, index; bool thorough;
-    bool use_tape = false; std::vector<uint32_t> tape; int64_t focus = -1, focus2 = -1; bool keep_text = false;
+    bool use_tape = false; std::vector<uint32_t> tape; int64_t focus = -1, focus2 = -1; bool keep_text = false; unsigned timeout_s = 120;
 };
 struct ChildResult {
     bool ok_exec = false;      // child produced a result record
@@ -161,6 +161,7 @@ struct ChildResult {
     std::string sample; std::vector<std::string> events;
     int exit_code = 0, term_sig = 0;
     std::string stderr_text;
+    double wall = 0;
 };
 
 static void write_all(int fd, const std::string& s) {
@@ -205,12 +206,13 @@ static ChildResult run_child(const ChildSpec& cs) {
     mkdir(g_rundir.c_str(), 0755);
     std::string errpath = g_rundir + "/child." + std::to_string(getpid()) + ".err";
     fflush(stdout); fflush(stderr);
+    double t_child0 = now_s();
     pid_t pid = fork();
     if (pid == 0) {
         close(pfd[0]);
         int efd = open(errpath.c_str(), O_WRONLY | O_CREAT | O_TRUNC, 0644);
         if (efd >= 0) { dup2(efd, 2); close(efd); }
-        alarm(120);
+        alarm(cs.timeout_s);
         RunCtx ctx; ctx.seed = cs.seed; ctx.index = cs.index; ctx.thorough = cs.thorough;
         ctx.focus = cs.focus; ctx.focus2 = cs.focus2;
         if (cs.use_tape) T.start_replay(cs.tape); else T.start_generate(cs.seed, fnv(cs.P->id, strlen(cs.P->id)), cs.index);
@@ -232,6 +234,7 @@ static ChildResult run_child(const ChildSpec& cs) {
     while ((n = read(pfd[0], buf, sizeof buf)) > 0) out.append(buf, (size_t)n);
     close(pfd[0]);
     int st = 0; waitpid(pid, &st, 0);
+    cr.wall = now_s() - t_child0;
     if (WIFEXITED(st)) cr.exit_code = WEXITSTATUS(st); else if (WIFSIGNALED(st)) cr.term_sig = WTERMSIG(st);
     cr.stderr_text = slurp(errpath);
     unlink(errpath.c_str());
@@ -277,11 +280,14 @@ static ChildResult shrink(const Property* P, uint64_t seed, uint64_t index, bool
                           std::vector<uint32_t> tape, int* executions) {
     const std::string sig = best.sig;
     int budget = 400;
+    const double t_shrink0 = now_s();
+    const unsigned per_attempt = (unsigned)std::min(120.0, std::max(10.0, best.wall * 3 + 5));
+    if (sig.find(":hang:wallclock") != std::string::npos) budget = 0;     // each attempt would cost the full watchdog time
     auto attempt = [&](const std::vector<uint32_t>& cand, int64_t f, int64_t f2) -> bool {
-        if (budget <= 0) return false;
+        if (budget <= 0 || now_s() - t_shrink0 > 90) return false;
         budget--; (*executions)++;
         ChildSpec cs{P, seed, index, thorough};
-        cs.use_tape = true; cs.tape = cand; cs.focus = f; cs.focus2 = f2;
+        cs.use_tape = true; cs.tape = cand; cs.focus = f; cs.focus2 = f2; cs.timeout_s = per_attempt;
         ChildResult r = run_child(cs);
         if (!same_class(r, sig)) return false;
         if (r.ok_exec) { tape = r.tape; } else tape = cand;
@@ -536,9 +542,23 @@ int main(int argc, char** argv) {
     int live = jobs;
     int harness_fail = 0;
     double wall_limit = thorough ? 6 * 3600.0 : 3600.0;
+    std::vector<uint64_t> last_idx((size_t)jobs, ~0ull); std::vector<double> last_change((size_t)jobs, now_s());
     while (live > 0) {
         int st = 0;
-        pid_t p = waitpid(-1, &st, 0);
+        pid_t p = waitpid(-1, &st, WNOHANG);
+        if (p == 0) {
+            // wall-clock backstop for time spent outside instrumented code (zlib, zstd, libc): a worker that sits on one
+            // index for 90 s is killed; the index is then re-executed in a child whose own alarm classifies it as a hang
+            usleep(20000);
+            double t = now_s();
+            for (int i = 0; i < jobs; i++) {
+                if (!pids[(size_t)i]) continue;
+                uint64_t ci = SH->cur_index[i];
+                if (ci != last_idx[(size_t)i]) { last_idx[(size_t)i] = ci; last_change[(size_t)i] = t; }
+                else if (ci != ~0ull && t - last_change[(size_t)i] > 90) { kill(pids[(size_t)i], SIGKILL); last_change[(size_t)i] = t; }
+            }
+            continue;
+        }
         if (p < 0) { if (errno == EINTR) continue; break; }
         int w = -1;
         for (int i = 0; i < jobs; i++) if (pids[(size_t)i] == p) w = i;
@@ -573,6 +593,7 @@ int main(int argc, char** argv) {
         if (n_reported >= 6 && c.sig == "?death") { continue; }
         ChildSpec cs{P, seed, c.index, thorough}; cs.keep_text = true;
         ChildResult r1 = run_child(cs);
+        printf("triage: index %" PRIu64 " (%s) -> %s [%.1fs]\n", c.index, c.sig.c_str(), r1.sig.c_str(), r1.wall); fflush(stdout);
         if (r1.status == 3) { printf("MACHINERY-FAILURE: harness bug at index %" PRIu64 ": %s\n", c.index, r1.detail.c_str()); return 2; }
         if (r1.status != 1) {
             printf("MACHINERY-FAILURE: index %" PRIu64 " (%s) did not reproduce in a fresh process (status=%d) - harness nondeterministic\n", c.index, c.sig.c_str(), r1.status);
